@@ -28,8 +28,9 @@ Section Fields.
     A m x (set_started x true).
   Hypothesis H_blank_idle : forall m x, n_kind (nd p m) = KBlank true -> A m x (set_started x false).
   Hypothesis H_blank_start : forall m x, n_kind (nd p m) = KBlank false -> A m x (set_started x true).
-  Hypothesis H_reset : forall a m x, n_kind (nd p a) = KAlarm -> (m = a \/ In m (descendants p a)) ->
-    A m x (reset_one x (n_kind (nd p m))).
+  (* a subtree is reset when an Alarm re-arms and when a macro is called again *)
+  Hypothesis H_reset : forall a m x, (n_kind (nd p a) = KAlarm \/ exists nm, n_kind (nd p a) = KMacro nm) ->
+    (m = a \/ In m (descendants p a)) -> A m x (reset_one x (n_kind (nd p m))).
 
   Definition okS (s s' : S) : Prop := forall m, A m (st s m) (st s' m).
   Lemma ok_refl s : okS s s. Proof. intros m. apply H_refl. Qed.
@@ -71,7 +72,7 @@ Section Fields.
   Proof. unfold end_block. eapply ok_trans; [|apply ok_abort]. apply ok_set_ns. apply H_block. Qed.
   Lemma ok_end_blocks l s : okS s (fold_left (end_block p) l s).
   Proof. apply (ok_fold _ (fun _ => True)); [intros; apply ok_end_block|apply Forall_forall; auto]. Qed.
-  Lemma ok_reset_tree s a : n_kind (nd p a) = KAlarm -> okS s (reset_tree p s a).
+  Lemma ok_reset_tree s a : (n_kind (nd p a) = KAlarm \/ exists nm, n_kind (nd p a) = KMacro nm) -> okS s (reset_tree p s a).
   Proof.
     intros K. unfold reset_tree. apply (ok_fold _ (fun m => m = a \/ In m (descendants p a))).
     - intros s0 m Hm. apply ok_set_ns. now apply (H_reset a).
@@ -143,6 +144,12 @@ Section Fields.
       + cbn [out_state]. ok.
       + cbn [out_state]. ok.
       + apply ok_refl.
+      + (* KMacro *) destruct (interrupt_registered (st s n)); [apply ok_refl|]. cbn [out_state].
+        set (s1 := with_macros s _). eapply ok_trans; [apply (ok_same s s1); reflexivity|]. apply ok_set_ns. apply H_cond_keep.
+      + (* KCallMacro *) destruct (macro_lookup (macros s) name) as [m|]; [|apply ok_refl].
+        destruct (would_recurse p s name m); [apply ok_refl|]. destruct (n_kind (nd p m)) eqn:Km; try apply ok_refl.
+        destruct (Nat.leb _ _); [|apply ok_refl]. cbn [out_state].
+        eapply ok_trans; [apply ok_reset_tree; right; eauto|]. apply ok_set_ns. apply H_cond_keep.
     - apply ok_refl.
     - destruct (_ || _); apply ok_refl.
     - destruct (nth_error (n_children (nd p n)) i) as [c|]; [|cbn [out_state]; ok].
@@ -182,10 +189,13 @@ Section Fields.
     - apply ok_refl.
     - apply ok_refl.
     - destruct (n_kind (nd p n)) eqn:K; try apply ok_refl. cbv zeta. cbn [out_state].
-      eapply ok_trans; [|apply ok_register]. eapply ok_trans; [|now apply ok_reset_tree].
+      eapply ok_trans; [|apply ok_register]. eapply ok_trans; [|apply ok_reset_tree; now left].
       eapply ok_trans; [|apply ok_unregister]. eapply ok_trans; [apply ok_mark_completed|].
       apply ok_set_ns. apply H_cond_keep.
     - (* FInjAfter *) cbn [out_state]. ok.
+    - (* FMacro1 *) cbn [out_state]. ok.
+    - (* FCallAfter *) cbn [out_state]. eapply ok_trans; [|apply ok_mark_completed]. eapply ok_trans; [|apply ok_complete].
+      apply ok_set_ns. eapply H_trans; [apply H_completed|apply H_wait].
   Qed.
 
   (* one tick *)
